@@ -55,6 +55,19 @@ CHECKS = {
              "attributed to the right origin and circuit. Seeded sampling of sizes, schedules and fault lists.",
         note="Trusts ChaCha20-Poly1305 in ipv8_rust_tunnels. Hidden-service e2e circuits and the native Rust endpoint are not "
              "covered. Loss is not a violation: delivery is demanded only on FIFO fault-free links."),
+    "C12": dict(
+        level="exploration", design="DESIGN.md 4/C12",
+        technique=TECH + ": operation histories (incl. snapshot/restart and LRU-overflow configurations) on the real Network "
+                         "with a lock-step reference model; enumerated depth-5/6 sequences over two 8-op alphabets + seeded "
+                         "histories up to 200 ops",
+        text="The real peer graph and a small membership model execute the same explicit operation list (adds, discoveries, "
+             "removals by peer and by address, address changes, blacklisting, every query, snapshot -> fresh graph -> load, garbage "
+             "snapshots) with LRU cache sizes drawn from {1,2,3,500}; after every operation every lookup is observed three times "
+             "and compared with the model (by key, by address, per service, walkable addresses, services of a peer), so stale "
+             "caches, answers changed by asking, un-re-addable peers and verified blacklisted identities are caught. Exhaustive "
+             "over all sequences of depth 5 (quick) / 6 (thorough) of the reduced alphabets, seeded sampling beyond.",
+        note="Direct histories on a Network object; get_introductions_from is executed but not compared (the statement does not "
+             "name it). Single-threaded."),
     "C14": dict(
         level="exploration", design="DESIGN.md 4/C14",
         technique=TECH + ": seeded histories (add/update/status change/clock advance/remove_bad_nodes/closest) on the real "
